@@ -19,7 +19,8 @@ LEVEL = "model_checking"
 CODE = ["yowsup/layers/__init__.py:YowLayer.toLower (lock held while the lower layer runs)", "yowsup/layers/noise/layer.py:send/_handle_stream_event", "yowsup/layers/noise/layer_noise_segments.py:send",
         "yowsup/layers/coder/layer.py:send/write", "yowsup/layers/logger/layer.py", "yowsup/layers/protocol_iq/layer.py:sendIq", "yowsup/layers/interface/interface.py:send",
         "consonance.transport.WANoiseTransport.send + dissononce CipherState.encrypt_with_ad (real, traced)"]
-BOUNDS = {"quick": "[+ socket-wire: network histories len<=6 after up+send with sends accepting all/half/nothing; second stack login pre-empted after k<=29 lines x 3 senders] " 
+BOUNDS = {"quick": "[+ 7 iq entity kinds between two other stanzas] " 
+                   "[+ socket-wire: network histories len<=6 after up+send with sends accepting all/half/nothing; second stack login pre-empted after k<=29 lines x 3 senders] " 
                    "[+ senders (4 selections) in the window between a reported close and its event, then reconnect; login with edge routing info (3 values)] " 
                    "2 threads x 2 stanzas and 3 threads x 1 stanza (application via the top layer, keep-alive via the iq layer, second application thread, senders at the coder layer); all interleavings of the extracted events; "
                    "races: 2 senders x 1 stanza, every shared written container, <=5 access positions of one sender x first access of the other per operation; 3 kinds of refused send before 2 concurrent senders; a peer drop followed by senders before the new handshake; frames of 64 KiB..3 MiB",
